@@ -39,6 +39,67 @@ theorem delete_needs_write (cfg : Cfg) (rights : Rights) (user : String) (s : St
     (deleteU cfg rights user s p im imc).2 = some u → check rights user p 'w' (subjectOf (resolve s p)) = true :=
   delete_needs_w cfg rights user s p im imc u
 
+/-- **deleting a collection is decided on the collection's own path.**  With `permit_delete_collection = False` a
+    DELETE of a collection that is carried out found the letter `D` in the permissions of that very path (the parent's
+    letters cannot stand in); with `permit_delete_collection = True` it is carried out only if the letter for "forbidden"
+    is absent there (`d` for a calendar / address book, `D` for a plain collection — finding F8). -/
+theorem delete_collection_needs_own_letter (cfg : Cfg) (rights : Rights) (user : String) (s : Store) (p : Path) (im imc)
+    (q : Path) (c : Coll) (u : Update) (hres : resolve s p = .coll q c)
+    (h : (deleteU cfg rights user s p im imc).2 = some u) :
+    (cfg.permitDelete = false → has (rights user p) "D" = true) ∧
+    (cfg.permitDelete = true → has (rights user p) (if c.tag = .none then "D" else "d") = false) := by
+  have hcheck : ∀ (perm : Char) (subj : Subject), subj = .collTagged ∨ subj = .collPlain →
+      check rights user p perm subj = has (rights user p) (String.mk [if subj = .collTagged then perm else perm.toUpper]) := by
+    intro perm subj hs
+    rcases hs with rfl | rfl <;> simp [check, has]
+  have eD : String.mk ['D'] = "D" := by decide
+  have ed : String.mk ['d'] = "d" := by decide
+  unfold deleteU at h
+  split at h
+  · simp at h
+  rw [hres] at h
+  by_cases ht : c.tag = .none
+  · simp only [ht, if_true] at h
+    split at h
+    · simp at h
+    split at h
+    · simp at h
+    split at h
+    · simp at h
+    split at h
+    · simp at h
+    rename_i hd hD
+    rw [hcheck 'd' .collPlain (Or.inr rfl)] at hd
+    rw [hcheck 'D' .collPlain (Or.inr rfl)] at hD
+    simp only [ht, if_true]
+    constructor
+    · intro hp
+      simp only [hp, true_and, Bool.not_eq_false] at hD
+      simpa [eD, ed] using hD
+    · intro hp
+      simp only [hp, true_and, Bool.not_eq_true] at hd
+      simpa [eD, ed] using hd
+  · simp only [ht, if_false] at h
+    split at h
+    · simp at h
+    split at h
+    · simp at h
+    split at h
+    · simp at h
+    split at h
+    · simp at h
+    rename_i hd hD
+    rw [hcheck 'd' .collTagged (Or.inl rfl)] at hd
+    rw [hcheck 'D' .collTagged (Or.inl rfl)] at hD
+    simp only [ht, if_false]
+    constructor
+    · intro hp
+      simp only [hp, true_and, Bool.not_eq_false] at hD
+      simpa [eD, ed] using hD
+    · intro hp
+      simp only [hp, true_and, Bool.not_eq_true] at hd
+      simpa [eD, ed] using hd
+
 theorem proppatch_needs_write (cfg : Cfg) (rights : Rights) (user : String) (s : Store) (p set rm st bad) (u : Update) :
     (proppatchU cfg rights user s p set rm st bad).2 = some u → check rights user p 'w' (subjectOf (resolve s p)) = true :=
   proppatch_needs_w cfg rights user s p set rm st bad u
